@@ -338,22 +338,26 @@ func (c *cv) fflShift(in *fflInstance, a, b [3]int, delta *big.Int) (forged inte
 		return nil, false
 	}
 	forged = DeepCopy(in.proof)
-	fv := reflect.ValueOf(forged).Elem()
-	outer := fv.FieldByName("ClaimedValues")
-	inner := fv.FieldByName("SOpeningProof").FieldByName("ClaimedValues")
-	apply := func(s [3]int, d *big.Int) {
-		i, k, j := s[0], s[1], s[2]
-		t := in.ts[i]
-		e := outer.Index(i).Index(k).Index(j)
-		e.Set(reflect.ValueOf(c.fe(c.F.Add(feBig(e), d))).Elem())
-		for l := 0; l < t; l++ {
-			ie := inner.Index(i).Index(j*t + l)
-			ie.Set(reflect.ValueOf(c.fe(c.F.Add(feBig(ie), c.F.Mul(d, c.F.Exp(in.ext[i][j*t+l], bi(int64(k))))))).Elem())
-		}
-	}
+	apply := func(s [3]int, d *big.Int) { c.fflBump(in, forged, s, d) }
 	apply(a, delta)
 	apply(b, c.F.Neg(c.F.Mul(delta, c.F.Mul(ca, c.F.Inv(cb)))))
 	return forged, true
+}
+
+// fflBump adds d to the outer claimed value s = (pack, polynomial, point) of proof and re-folds the inner values, so
+// that the folding identity keeps holding.
+func (c *cv) fflBump(in *fflInstance, proof interface{}, s [3]int, d *big.Int) {
+	fv := reflect.ValueOf(proof).Elem()
+	outer := fv.FieldByName("ClaimedValues")
+	inner := fv.FieldByName("SOpeningProof").FieldByName("ClaimedValues")
+	i, k, j := s[0], s[1], s[2]
+	t := in.ts[i]
+	e := outer.Index(i).Index(k).Index(j)
+	e.Set(reflect.ValueOf(c.fe(c.F.Add(feBig(e), d))).Elem())
+	for l := 0; l < t; l++ {
+		ie := inner.Index(i).Index(j*t + l)
+		ie.Set(reflect.ValueOf(c.fe(c.F.Add(feBig(ie), c.F.Mul(d, c.F.Exp(in.ext[i][j*t+l], bi(int64(k))))))).Elem())
+	}
 }
 
 func propFflonk(t *rapid.T, c *cv) {
@@ -499,6 +503,25 @@ func propFflonk(t *rapid.T, c *cv) {
 		if ok {
 			if c.fflStatementTrue(in, bigVec3(reflect.ValueOf(forged).Elem().FieldByName("ClaimedValues"))) {
 				t.Fatalf("harness error: shifted claims still true")
+			}
+			// pin the known class (see propShplonk): the construction satisfies the relation; the same shift with the
+			// compensation off by one (folding still consistent) must be rejected whether or not F15 is listed
+			{
+				o := c.fflObj(in)
+				reflect.ValueOf(o).Elem().Field(2).Set(reflect.ValueOf(forged).Elem())
+				if w, why := c.fflExpectObj(in, o); w != mustAccept {
+					t.Fatalf("harness error: the F15 construction (through the folding) does not satisfy the verifier's relations (%s)", why)
+				}
+				near := DeepCopy(forged)
+				c.fflBump(in, near, slots[ib], bi(1))
+				reflect.ValueOf(o).Elem().Field(2).Set(reflect.ValueOf(near).Elem())
+				if w, why := c.fflExpectObj(in, o); w != mustReject {
+					t.Fatalf("harness error: miscompensated shift expected to break the relation (%s)", why)
+				}
+				if err := c.fflVerify(near, in.digests, points, srs); err == nil {
+					t.Fatalf("fflonk/%s: FORGERY ACCEPTED: jointly shifted outer claimed values %v,%v with the compensation off by one verify — NOT the known finding F15 (%s)", c.name, slots[ia], slots[ib], key)
+				}
+				rep.Case(test, "miscompensated adaptive "+key, true, "fflonk", "curve:"+c.name, "adaptive_shift_miscompensated", "verdict:rejected")
 			}
 			if rep.Known(prop, keyF15) {
 				rep.Excluded(test, prop, keyF15)
